@@ -231,6 +231,8 @@ func checkC09(r *core.Run, p *core.Program) {
 		})
 		r.Check("C09.on-error", "rules.RulesEventReceiver.OnError|forwards", f.Decl.Pos(), fw, "the validator must forward OnError to the next receiver")
 	}
+	r.Rule("C09.stacked-wrapper", "a builder that is pushed on the builder stack holding the builder that was on top before it (a marker waiting for its object: constructed from Context.CurrentBuilder and stacked in the same method) does not forward the artificial end of input to that builder: the wrapped builder is BELOW it on the stack and is terminated by the unwinding loop itself - forwarding closes the enclosing container while the wrapper is still stacked, and the partial result ends up containing itself.")
+	checkC09StackedWrapper(r, p)
 	checkTerminateProgress2(r, p, a)
 	if m := newBuilderMatrix(p, a); m != nil {
 		checkTerminators(r, m, "C09.on-error")
@@ -312,4 +314,99 @@ func checkTerminateProgress2(r *core.Run, p *core.Program, a *analysis) {
 	for _, o := range sub.Obls {
 		r.Check("C09.on-error", o.Construct, token.NoPos, o.OK, o.Detail)
 	}
+}
+
+func checkC09StackedWrapper(r *core.Run, p *core.Program) {
+	pkg := p.Pkg("builder")
+	info := pkg.TypesInfo
+	n := 0
+	for _, f := range funcsOf(pkg) {
+		if rn := recvNamed(f.Obj); rn == nil || rn.Obj().Name() != "Context" {
+			continue
+		}
+		// x := newT(…, _this.CurrentBuilder, …) … _this.StackBuilder(x)
+		ast.Inspect(f.Decl.Body, func(nd ast.Node) bool {
+			as, ok := nd.(*ast.AssignStmt)
+			if !ok || len(as.Lhs) != 1 || len(as.Rhs) != 1 {
+				return true
+			}
+			call, ok := stripParens(as.Rhs[0]).(*ast.CallExpr)
+			if !ok {
+				return true
+			}
+			ctor := callee(info, call)
+			if ctor == nil || ctor.Pkg() != pkg.Types {
+				return true
+			}
+			argIdx := -1
+			for i, a := range call.Args {
+				if fv := fieldOf(info, a); fv != nil && fv.Name() == "CurrentBuilder" {
+					argIdx = i
+				}
+			}
+			if argIdx < 0 {
+				return true
+			}
+			xObj := objOf(info, as.Lhs[0])
+			stacked := false
+			inspectCalls(info, f.Decl.Body, func(c2 *ast.CallExpr, cal *types.Func) {
+				if cal != nil && cal.Name() == "StackBuilder" && len(c2.Args) == 1 && objOf(info, c2.Args[0]) == xObj {
+					stacked = true
+				}
+			})
+			if !stacked {
+				return true
+			}
+			// the field of T that receives the constructor's parameter
+			cd := p.FuncDecl(ctor)
+			if cd == nil || cd.Body == nil {
+				return true
+			}
+			csig := ctor.Type().(*types.Signature)
+			if argIdx >= csig.Params().Len() {
+				return true
+			}
+			cparam := csig.Params().At(argIdx)
+			var heldIn *types.Var
+			var tNamed *types.Named
+			ast.Inspect(cd.Body, func(k ast.Node) bool {
+				lit, ok := k.(*ast.CompositeLit)
+				if !ok {
+					return true
+				}
+				for _, el := range lit.Elts {
+					if kv, ok := el.(*ast.KeyValueExpr); ok && objOf(info, kv.Value) == cparam {
+						if fv, ok := objOf(info, kv.Key).(*types.Var); ok {
+							heldIn = fv
+							tNamed = namedOf(info.TypeOf(lit))
+						}
+					}
+				}
+				return true
+			})
+			if heldIn == nil || tNamed == nil {
+				return true
+			}
+			n++
+			term := p.LookupFunc("builder", tNamed.Obj().Name()+".BuildArtificiallyEndContainer")
+			td := p.FuncDecl(term)
+			if td == nil || td.Body == nil {
+				r.Undecided("C09.stacked-wrapper", "builder."+tNamed.Obj().Name()+".BuildArtificiallyEndContainer")
+				return true
+			}
+			var bad token.Pos
+			inspectCalls(info, td.Body, func(c3 *ast.CallExpr, cal *types.Func) {
+				if cal == nil || (cal.Name() != "BuildArtificiallyEndContainer" && cal.Name() != "BuildEndContainer") {
+					return
+				}
+				if sel, ok := c3.Fun.(*ast.SelectorExpr); ok && fieldOf(info, sel.X) == heldIn {
+					bad = c3.Pos()
+				}
+			})
+			r.Check("C09.stacked-wrapper", "builder."+tNamed.Obj().Name()+"|artificial end is not forwarded to the builder below", posOr(bad, td.Pos()), !bad.IsValid(),
+				"builder."+tNamed.Obj().Name()+" is stacked on top of the builder it holds in "+heldIn.Name()+" and forwards the artificial end of input to it: when the input ends right after a marker (`[1 &a:`) the enclosing container is closed while the marker builder is still stacked, and the partial result contains a copy of (or a reference to) itself")
+			return true
+		})
+	}
+	r.Floor("C09.stacked-wrapper", "builders stacked on top of the builder they hold", n, 1)
 }
